@@ -480,10 +480,10 @@ func (w *c12World) launch(op *c12Op) {
 	w.started++
 	if op.isPost() || op.Kind == "t-get-roots" {
 		d := []time.Duration{40 * time.Second, 3 * time.Second, 10 * time.Minute}[s.T.Intn(3)] + offGrid
-		op.ctx, op.cancel = context.WithDeadline(w.ctx, time.Now().Add(d))
+		op.ctx, op.cancel = deadlineCtx(w.ctx, time.Now().Add(d), op.ID%2 == 1)
 		op.deadlineT = s.Now() + d
 	} else {
-		op.ctx, op.cancel = context.WithCancel(w.ctx)
+		op.ctx, op.cancel = cancelCtx(w.ctx, op.ID%2 == 1)
 	}
 	s.Logf("%s %s A=%d B=%d deadline=%v %s%s", op.Party, op.Kind, op.A, op.B, op.deadlineT, op.mutNote, op.trunc)
 	if op.trunc != "" {
